@@ -136,13 +136,14 @@ func (r *envelopeReader) Unmarshal(message any) *Error {
 	}
 
 	data := env.Data
+	if env.IsSet(flagEnvelopeCompressed) && r.compressionPool == nil {
+		// Malformed whatever the payload's size: nothing says how it's compressed.
+		return errorf(
+			CodeInvalidArgument,
+			"gRPC protocol error: sent compressed message without Grpc-Encoding header",
+		)
+	}
 	if data.Len() > 0 && env.IsSet(flagEnvelopeCompressed) {
-		if r.compressionPool == nil {
-			return errorf(
-				CodeInvalidArgument,
-				"gRPC protocol error: sent compressed message without Grpc-Encoding header",
-			)
-		}
 		decompressed := r.bufferPool.Get()
 		defer r.bufferPool.Put(decompressed)
 		if err := r.compressionPool.Decompress(decompressed, data, int64(r.readMaxBytes)); err != nil {
